@@ -71,13 +71,37 @@ pub fn parse_with_lexer(lexer: &mut Lexer, r: &impl Resolve, flags: ParseFlags) 
     parse_with_lexer_ctx(lexer, r, None, flags, MAX_DEPTH)
 }
 
+/// The name written as `rest` (the token without its `/`): `#xx` stands for the byte with that code.
+fn decode_name(mut rest: &[u8]) -> Result<SmallString> {
+    let s = if rest.contains(&b'#') {
+        let mut s = IBytes::new();
+        while let Some(idx) = rest.iter().position(|&b| b == b'#') {
+            use crate::enc::decode_nibble;
+            use std::convert::TryInto;
+            let [hi, lo]: [u8; 2] = rest.get(idx+1 .. idx+3).ok_or(PdfError::EOF)?.try_into().unwrap();
+            let byte = match (decode_nibble(lo), decode_nibble(hi)) {
+                (Some(low), Some(high)) => low | high << 4,
+                _ => return Err(PdfError::HexDecode { pos: idx, bytes: [hi, lo] }),
+            };
+            s.extend_from_slice(&rest[..idx]);
+            s.push(byte);
+            rest = &rest[idx+3..];
+        }
+        s.extend_from_slice(rest);
+        SmallBytes::from(s.as_slice())
+    } else {
+        SmallBytes::from(rest)
+    };
+    Ok(SmallString::from_utf8(s)?)
+}
+
 fn parse_dictionary_object(lexer: &mut Lexer, r: &impl Resolve, ctx: Option<&Context>, max_depth: usize) -> Result<Dictionary> {
     let mut dict = Dictionary::default();
     loop {
         // Expect a Name (and Object) or the '>>' delimiter
         let token = t!(lexer.next());
         if token.starts_with(b"/") {
-            let key = token.reslice(1..).to_name()?;
+            let key = decode_name(&token.reslice(1..))?;
             let obj = t!(parse_with_lexer_ctx(lexer, r, ctx, ParseFlags::ANY, max_depth));
             dict.insert(key, obj);
         } else if token.equals(b">>") {
@@ -194,28 +218,7 @@ fn _parse_with_lexer_ctx(lexer: &mut Lexer, r: &impl Resolve, ctx: Option<&Conte
         check(flags, ParseFlags::NAME)?;
         // Name
 
-        let mut rest: &[u8] = &first_lexeme.reslice(1..);
-        let s = if rest.contains(&b'#') {
-            let mut s = IBytes::new();
-            while let Some(idx) = rest.iter().position(|&b| b == b'#') {
-                use crate::enc::decode_nibble;
-                use std::convert::TryInto;
-                let [hi, lo]: [u8; 2] = rest.get(idx+1 .. idx+3).ok_or(PdfError::EOF)?.try_into().unwrap();
-                let byte = match (decode_nibble(lo), decode_nibble(hi)) {
-                    (Some(low), Some(high)) => low | high << 4,
-                    _ => return Err(PdfError::HexDecode { pos: idx, bytes: [hi, lo] }),
-                };
-                s.extend_from_slice(&rest[..idx]);
-                s.push(byte);
-                rest = &rest[idx+3..];
-            }
-            s.extend_from_slice(rest);
-            SmallBytes::from(s.as_slice())
-        } else {
-            SmallBytes::from(rest)
-        };
-        
-        Primitive::Name(SmallString::from_utf8(s)?)
+        Primitive::Name(decode_name(&first_lexeme.reslice(1..))?)
     } else if first_lexeme.equals(b"[") {
         check(flags, ParseFlags::ARRAY)?;
         if max_depth == 0 {
